@@ -427,3 +427,163 @@ def rule_pending_ref_checked(ctx):
         ctx.violated("PENDINGREF", key, f.where(min(adds)), "the reference Htagnewref returned goes into the annotation tree without a look-up for annotations that hold it in memory only: "
                      "a second ANcreate of the same type before the first ANwriteann fails")
     return 1
+
+
+class _Reserve(PathAnalysis):
+    """user = frozenset over {'R': length clamped to bound-1, 'C': length clamped to the whole bound, 'T': terminator stored at buf[length]}"""
+
+    def __init__(self, prog, bound):
+        super().__init__(prog)
+        self.bound = bound
+        self.exits = []
+        self.seen = set()
+
+    def init_user(self, func):
+        return frozenset()
+
+    def on_stmt(self, func, bid, idx, stmt, env, user):
+        u = set(user)
+        for x in walk(stmt["e"]):
+            if x[0] == "asg" and x[1] == "=" and kind(strip(x[2])) == "var":
+                r = strip(x[3])
+                if kind(r) == "var" and r[1] == self.bound:
+                    u.add("C"); u.discard("R"); self.seen.add("C")
+                elif kind(r) == "bin" and r[1] == "-" and kind(strip(r[2])) == "var" and strip(r[2])[1] == self.bound and is_int(r[3], 1):
+                    u.add("R"); u.discard("C"); self.seen.add("R")
+                elif kind(r) == "cond":
+                    # length = (length > bound) ? bound : length
+                    for y in walk(r):
+                        if y[0] == "var" and y[1] == self.bound:
+                            self.seen.add("c?")
+            if x[0] == "asg" and x[1] == "=" and kind(strip(x[2])) == "idx" and is_int(x[3], 0):
+                u.add("T"); self.seen.add("T")
+        return frozenset(u)
+
+    def on_exit(self, func, bid, retval, env, user):
+        self.exits.append((classify_ret(retval, self.fails), user))
+
+
+def rule_reserve_iff_terminated(ctx):
+    """RESERVENUL (C11): the annotation readers truncate to the caller's buffer.  A label is returned NUL-terminated, so one byte of the
+    buffer is reserved (length clamped to maxlen - 1) and the terminator goes to buf[length]; a description is raw bytes and may
+    fill the whole buffer.  Both directions are decided on paths: a path that clamped to maxlen - 1 must store the terminator
+    (else a description read into a buffer of exactly its length loses its last byte), and a path that clamped to the whole
+    maxlen must not store one (it would land at buf[maxlen])."""
+    prog = ctx.prog
+    n = 0
+    for f in prog.lib_funcs():
+        if not f.rel.endswith(("mfan.c", "dfan.c")):
+            continue
+        cand = None
+        for q in f.params:
+            p = q[0]
+            for _b, _i, _s, x in f.nodes(True):
+                if x[0] == "asg" and x[1] == "=" and kind(strip(x[2])) == "var":
+                    r = strip(x[3])
+                    if kind(r) == "bin" and r[1] == "-" and kind(strip(r[2])) == "var" and strip(r[2])[1] == p and is_int(r[3], 1):
+                        cand = p
+        if cand is None:
+            continue
+        a = _Reserve(prog, cand)
+        a.fails = fail_values(f, prog)
+        a.run(f)
+        n += 1
+        key = "RESERVENUL:%s" % f.name
+        ok_exits = [u for cls, u in a.exits if cls != "fail"]
+        lost = [u for u in ok_exits if "R" in u and "T" not in u]
+        over = [u for u in ok_exits if "C" in u and "T" in u]
+        if lost:
+            ctx.violated("RESERVENUL", key, f.where(), "%s can return after truncating to `%s - 1` without storing a terminator: raw annotation bytes lose the last byte of a buffer that is exactly long enough" % (f.name, cand))
+        elif over:
+            ctx.violated("RESERVENUL", key, f.where(), "%s can truncate to the whole `%s` and then store a terminator at buf[length]: one byte past the caller's buffer" % (f.name, cand))
+        else:
+            ctx.holds("RESERVENUL", key, f.where(), "a buffer byte is reserved exactly on the paths that store the terminator", nontrivial=True)
+    ctx.floor("RESERVENUL", 3, n, "(annotation readers that truncate to the caller's buffer)")
+    return n
+
+
+def rule_arm_globals(ctx, files=("hdf/src/dfan.c",)):
+    """ARMGLOBAL (C11): the single-file annotation interface keeps one cursor per annotation kind in file-scope variables (next
+    label ref, next description ref) and selects between them with `if (type == DFAN_LABEL) .. else ..` in every routine.  Each
+    such variable belongs to one kind: it must appear under the same arm of that test everywhere.  A routine that touches the
+    label cursor in its description arm advances the wrong walk: listing one kind repeats or skips annotations once calls for
+    the two kinds are interleaved."""
+    from .facts import int_name
+    prog = ctx.prog
+    uses = {}  # global -> {(const name, polarity): [(func, line)]}
+    for f in prog.lib_funcs():
+        if not f.rel.endswith(tuple(files)):
+            continue
+        ast = f.raw.get("ast")
+        if not ast:
+            continue
+
+        def vis(nd, st):
+            if nd[0] != "s":
+                return True
+            gl = {x[1] for x in walk(nd[1], True) if x[0] == "var" and len(x) > 2 and x[2] == "g" and x[1] in prog.globals}
+            if not gl:
+                return True
+            chain = st + [nd]
+            for i, s_ in enumerate(st):
+                if s_[0] != "if":
+                    continue
+                c = strip(s_[1])
+                if not (kind(c) == "bin" and c[1] in ("==", "!=") and kind(strip(c[2])) == "var" and int_name(c[3])):
+                    continue
+                arm = chain[i + 1]
+                pol = (arm is s_[2]) == (c[1] == "==")
+                for g in gl:
+                    uses.setdefault(g, {}).setdefault((int_name(c[3]), pol), []).append((f, nd[-3] if isinstance(nd[-3], int) else f.line))
+            return True
+
+        ast_walk(ast, vis)
+    n = 0
+    domain = sorted({k[0] for m in uses.values() for k in m})
+    if len(domain) == 2:
+        # a two-valued kind: "not A" is "B" — express every use as "under kind domain[0]" (True) or "under kind domain[1]" (False)
+        for g, m in uses.items():
+            nm = {}
+            for (cn, pol), sites in m.items():
+                nm.setdefault((domain[0], pol if cn == domain[0] else not pol), []).extend(sites)
+            uses[g] = nm
+    for g, m in sorted(uses.items()):
+        total = sum(len(v) for v in m.values())
+        if total < 2:
+            continue
+        n += 1
+        key = "ARMGLOBAL:%s" % g
+        consts = {k[0] for k in m}
+        bad = None
+        for cn in consts:
+            t, e = m.get((cn, True), []), m.get((cn, False), [])
+            if t and e:
+                minority = t if len(t) < len(e) else e
+                bad = (cn, minority[0], len(t), len(e))
+        if bad:
+            cn, (bf, bl), nt, ne = bad
+            ctx.violated("ARMGLOBAL", key, bf.where(bl), "`%s` is used under the `== %s` arm %d time(s) and under the other arm %d time(s): %s touches the cursor of the other annotation kind" % (g, cn, nt, ne, bf.name))
+        else:
+            ctx.holds("ARMGLOBAL", key, "-", "`%s` appears under one arm of the kind test in all %d places" % (g, total), nontrivial=True)
+    # CURSORABS: such a cursor is set from the ref the routine has just obtained; stepping it relative to its own old value
+    # (`cursor++`) depends on what an earlier, unrelated call left in it
+    for g in sorted(uses):
+        rel = []
+        for f in prog.lib_funcs():
+            if not f.rel.endswith(tuple(files)):
+                continue
+            for _b, _i, s_, x in f.nodes(True):
+                t = None
+                if x[0] == "incdec":
+                    t = strip(x[3])
+                elif x[0] == "asg" and x[1] != "=":
+                    t = strip(x[2])
+                if t is not None and kind(t) == "var" and t[1] == g:
+                    rel.append((f, s_.get("l", f.line)))
+        key = "CURSORABS:%s" % g
+        if rel:
+            ctx.violated("ARMGLOBAL", key, rel[0][0].where(rel[0][1]), "the cursor `%s` is stepped relative to its own old value in %s: after a call sequence that did not leave the ref just read in it, the step lands on a live annotation and the walk returns it again" % (g, rel[0][0].name))
+        else:
+            ctx.holds("ARMGLOBAL", key, "-", "`%s` is only ever assigned, never stepped relative to its old value" % g, nontrivial=True)
+    ctx.floor("ARMGLOBAL", 2, n, "(per-kind cursor variables selected by a kind test)")
+    return n
